@@ -30,23 +30,30 @@ def run(tier, v):
     def oracle(sc, base, x):
         v.count()
         orig = sc.source_bytes()
-        failed_ops = [o for o in x.trace if is_update_op(o) and (o.res < 0 or o.note == "SHORT" and False)]
+        failed_ops = [o for o in x.trace if is_update_op(o) and o.res < 0]
         tokens = 0
         strip_ok = True
+        not_updated = []
         for f, o in orig.items():
-            s = cli.token_strip(o, x.src.get(f, b""))
+            got = x.src.get(f, b"")
+            s = cli.token_strip(o, got)
             if s is None:
                 strip_ok = False
             else:
                 tokens += len(s)
+            # "could not update a file": the fault-free run updates it, this run did not produce the complete update
+            if base.src.get(f) != o and oracles.classify_source_file(o, got, base.src[f]) is None and got == o:
+                not_updated.append(f)
+            elif base.src.get(f) != o and oracles.classify_source_file(o, got, base.src[f]) is not None:
+                not_updated.append(f)
         rep = cli.Report(x.stdout)
         v.distinct((sc.name, x.terminated(), len(failed_ops) > 0, tokens, rep.inserted))
         sig_base = oracles.plan_signature(x)
         bad = []
         if x.timed_out or x.signal is not None:
             bad.append("abnormal-termination(%s)" % x.terminated())
-        elif failed_ops and x.exit == 0:
-            bad.append("exit0-despite-failed-%s" % "+".join(sorted({o.op for o in failed_ops})))
+        elif not_updated and x.exit == 0:
+            bad.append("exit0-although-a-file-was-not-updated(%s)" % ("+".join(sorted({o.op for o in failed_ops})) or "no-failed-op"))
         if x.exit == 0:
             if rep.inserted is not None and (not strip_ok or rep.inserted != tokens):
                 bad.append("exit0-count-mismatch")
